@@ -4,10 +4,10 @@ CONSTANTS
   Leafs = {101}
   MaxLen = 2
   MaxScope = 1
-  MaxLevel = 2
+  MaxLevel = 3
   Mirror = FALSE
   Cache = "none"
-  InitSet = "chains"
+  InitSet = "diag"
   SimK = 0
 CONSTRAINT LevelBound
 VIEW view
